@@ -115,7 +115,7 @@ fn c18_ssh_1_99_free5() {
 
 //# harness: c18_ssh_2_0_free9
 //# props: C18 C01
-//# tier: thorough
+//# tier: extended
 //# encodes: proto::ssh::repl, proto::ssh::ssh_parse
 //# bounds: identification = "SSH-2.0" (the dispatcher's signature) + 9 arbitrary bytes (version continuation, '-', software, SP, comment, lone CR, CR LF, bare LF, NUL, non-ASCII); log level Off
 //# assumes: empty software names are not judged (the property's grammar does not settle them)
